@@ -6,6 +6,10 @@ Engine E2: complete enumeration of a grammar of small x86_32 programs whose bran
 
 with the input in a register (EAX, symbolised with update_state({EAX: INPUT})) or in a 4-byte memory cell
 (symbolize_memory over its four bytes; compared in place, loaded first, or modified in place first).
+A further family ("straddle") symbolises a 4- or 2-byte buffer in the middle of the data page, performs one 8/16/32-bit
+store (constant, or read-modify-write) that straddles the START of the buffer, straddles its END, covers it from below,
+lies inside or lies outside it, and then branches on a byte / word / dword of the buffer (overwritten, kept or mixed
+bytes): a branch on overwritten bytes must not yield an input for a branch no input can reach.
 Every program is assembled with miasm's assembler and run on the real jitter (shadow tree, backend python; gcc too
 in the thorough tier) under the real DSEPathConstraint, exactly as example/symbol_exec/dse_crackme.py drives it:
 
@@ -44,7 +48,7 @@ LEVEL_TEXT = ("Bounded-exhaustive enumeration of small branching x86_32 programs
               "their mistakes do not depend on program size, so 1-3 branch programs over boundary inputs expose them.")
 LEVEL_NOTE = ("Trusted: miasm's x86 assembler and the jitter's concrete execution of ~15 instructions (judged by C17/C18/C20), the "
               "harness mc/jitprog.py / mc/jitx.py. The LLVM backend is absent from this image. Programs are loop-free and at most "
-              "three branches deep; inputs are one 32-bit register or one 4-byte cell; library stubs, snapshots/restore and "
+              "three branches deep; inputs are one 32-bit register, one 4-byte cell or a 2/4-byte buffer; library stubs, snapshots/restore and "
               "symbolic pointers are not exercised.")
 TECHNIQUE = "bounded-exhaustive enumeration of branching x86 programs under the real DSE; concrete replay of every produced model on a fresh jitter"
 ASSUMPTIONS = ["a symbol left unconstrained by a model may take any value (0 is used)",
